@@ -179,6 +179,27 @@ def handle (line : String) : String :=
         let l ← getT j "line"
         let lit ← getT j "lit"
         pure (Json.mkObj [("out", jT (substWord paramName lit l)), ("has", hasWord paramName l)])
+      else if op == "tablechecks" then
+        -- the table theorems, item by item: which row / name / key is the failing input
+        let bad (kind : String) (b : String) (what : Text) : Json := Json.mkObj [("kind", kind), ("backend", b), ("item", jT what)]
+        let rowsBad :=
+          (Gen.atlasCollections.filter (fun r => !decide (AtlasRowOk r))).map (fun r => bad "row" "atlas" r.name) ++
+          (Gen.cmsAodCollections.filter (fun r => !decide (CmsRowOk (T "cms_aod") Gen.cmsAodClasses r))).map (fun r => bad "row" "cms_aod" r.name) ++
+          (Gen.cmsMiniaodCollections.filter (fun r => !decide (CmsRowOk (T "cms_miniaod") Gen.cmsMiniaodClasses r))).map (fun r => bad "row" "cms_miniaod" r.name)
+        let namesBad := (Gen.readmeAtlasCollections.filter (fun n => !(namesOf Gen.atlasCollections).contains n)).map (bad "readme-collection-missing" "atlas")
+        let specBad := ([Backend.atlas, .cmsAod, .cmsMiniaod].filter (fun b => (builtins b).map declOf != builtinDecls b || (builtins b).length != b.rows.length)).map
+          (fun b => bad "builtin-spec-differs-from-backend-convention" (S b.execName) b.execName)
+        let keysBad :=
+          (Gen.readmeAtlasKeys.filter (fun k => !(Backend.whitelist .atlas).contains k)).map (bad "documented-key-refused" "atlas") ++
+          (Gen.readmeCmsAodKeys.filter (fun k => !(Backend.whitelist .cmsAod).contains k)).map (bad "documented-key-refused" "cms_aod") ++
+          (Gen.readmeCmsMiniaodKeys.filter (fun k => !(Backend.whitelist .cmsMiniaod).contains k)).map (bad "documented-key-refused" "cms_miniaod")
+        let readBad := Gen.mdBranches.flatMap (fun br => (br.whitelist.filter (fun k => k != T "element_pointer" && k != T "metadata_type" && !br.readKeys.contains k)).map
+          (bad "accepted-key-never-read" (S br.specBackend)))
+        let dtBad := (if decide (DefaultTypesOk Gen.atlasDefaultTypes ∧ DefaultTypesOk Gen.cmsAodDefaultTypes ∧ DefaultTypesOk Gen.cmsMiniaodDefaultTypes ∧
+            DefaultTypesReachable Gen.atlasCollections Gen.atlasDefaultTypes ∧ DefaultTypesReachable Gen.cmsAodCollections Gen.cmsAodDefaultTypes)
+          then [] else [bad "default-method-types" "" (T "duplicate (class, method), pointer depth > 1, or unreachable class")])
+        pure (Json.mkObj [("failing", Json.arr (rowsBad ++ namesBad ++ specBad ++ keysBad ++ readBad ++ dtBad).toArray),
+          ("unrecognised", Json.arr (Gen.unrecognised.map jT).toArray)])
       else if op == "tables" then
         pure (Json.mkObj [("atlas", Json.arr ((builtins .atlas).map jRow).toArray), ("cms_aod", Json.arr ((builtins .cmsAod).map jRow).toArray),
           ("cms_miniaod", Json.arr ((builtins .cmsMiniaod).map jRow).toArray)])
